@@ -103,6 +103,9 @@ func (e *Engine) registerIntrinsics2() {
 		}
 	}
 
+	// proto.Size: an opaque small size (only compared with the batcher's thresholds)
+	in["google.golang.org/protobuf/proto.Size"] = func(c *PathCtx, fr *frame, args []Value) Value { return mkBV(64, 100) }
+
 	// ---------------- encoding/json Encoder (same opaque snapshot as Marshal) ----------------
 	newEncoder := func(c *PathCtx, fr *frame, args []Value) Value {
 		p := new(Value)
